@@ -31,6 +31,9 @@ type simOut struct {
 	Limit   int
 	// IdlessDirect: some executed round's first return-directly call carried no tool-call id
 	IdlessDirect bool
+	// DupDirect: the return-directly call whose result is the answer shares its (non-empty)
+	// tool-call id with another call of the same assistant message
+	DupDirect bool
 }
 
 // stepBudget: how MaxStep relates to the loop (derived from the code, see NOTES.md).
@@ -113,6 +116,13 @@ func simulate(c *caseSpec, idlessQuirk bool) simOut {
 			out.IdlessDirect = true
 			if idlessQuirk {
 				direct = -1
+			}
+		}
+		if direct >= 0 && am.ToolCalls[direct].ID != "" {
+			for j, tc := range am.ToolCalls {
+				if j != direct && tc.ID == am.ToolCalls[direct].ID {
+					out.DupDirect = true
+				}
 			}
 		}
 		if lookupFails {
